@@ -125,8 +125,8 @@ def run_property(pid, mod, tier, seed, verbose=False):
                " violations=%d" % len(res.violations) if res.violations else "", res.wall))
 
     # ---------------- E2
-    if hasattr(mod, "enumerate"):
-        rep = mod.enumerate(ctx)
+    if hasattr(mod, "enumerate_inputs"):
+        rep = mod.enumerate_inputs(ctx)
         cov["evaluations"] += rep.get("evaluations", 0)
         cov["distinct_nontrivial"] += rep.get("distinct_nontrivial", 0)
         cov["states"] += rep.get("states", 0)
